@@ -25,6 +25,22 @@
 (*   UNDEF  undefined behaviour: a value read from an uninitialised        *)
 (*          object or outside an array / a write past a buffer             *)
 (*   ERR    RLC_THROW (ERR_NO_BUFFER) leaves the routine                   *)
+(*                                                                         *)
+(* Input classes on which the transcription does NOT return [k]P (each is  *)
+(* stated exactly in its invariant, checked in both directions, and was    *)
+(* reproduced on the real library, NIST P-256, RLC_WIDTH 4, 64-bit digits):*)
+(*  lwreg      RegClass: with L = ceil(bits(n) / (w-1)) the result is      *)
+(*             right iff |k| < 2^((L+1)(w-1)) and |k| fits bn_rec_reg's    *)
+(*             scratch of ceil(L(w-1) / RLC_DIG) digits; beyond, the top   *)
+(*             digit misses the table scan and an uninitialised register   *)
+(*             is added, or dv_copy overruns the scratch.  (P-256: 261-bit *)
+(*             scalars right, 262-bit scalars wrong.)                      *)
+(*  fix_lwnaf  k # 0, k = 0 mod n: ep_mul_fix_plain reads naf[-1] and      *)
+(*             returns -P (or garbage) instead of infinity.                *)
+(*  sim_trick  k or m reduces to fewer than w = RLC_WIDTH / 2 bits:        *)
+(*             bn_rec_win throws ERR_NO_BUFFER for 0 and runs off its      *)
+(*             buffer for 0 < bits < w (int - size_t in the loop bound);   *)
+(*             the real library segfaults for k = 1.                       *)
 (***************************************************************************)
 EXTENDS Integers, Sequences, FiniteSets, TLC
 
@@ -826,6 +842,9 @@ Counted == go => Cnt(CASE alg = "rec_jsf" -> (2 * N + 1) * (2 * N + 1)
                           [] alg \in {"rec_naf", "rec_slw", "rec_win"} -> Cardinality(RecRange)
                           [] alg = "rec_reg" -> Cardinality(RecRange) \div 2
                           [] alg = "tab" -> 1
+                          [] alg = "dig" -> (IF DG >= 10 THEN 1026 ELSE 2^DG)
+                          [] alg = "glv_basis" -> N * Cardinality(Lambdas)
+                          [] alg \in {"glv_imp", "glv_reg"} -> Cardinality(KSet) * Cardinality(Lambdas)
                           [] alg = "lwreg" -> Cardinality(KSet \cup RegExtra)
                           [] OTHER -> Cardinality(KSet))
 =============================================================================
